@@ -153,6 +153,17 @@ CHECKS = {
         "harness ZIP writer (validated by the two standard readers on every archive).",
    technique="TLA+ shape/history enumeration by TLC; behaviours replayed on the real zipslicer with two standard readers as oracles",
    engine="zip"),
+ "C18": dict(cat="model_checking", design="§4 C18",
+   text="spec/Cfb.tla models the sector allocator (first-fit reuse, growth, delete, replace) with ChainsSound/ChainsDisjoint/NoLeak and 3 "
+        "negative controls, and generates operation histories; spec/CfbInv.tla states [MS-CFB] validity (chains, accounting of every "
+        "sector, sizes, header counts, each storage's children an ordered valid red-black tree) and StreamsPreserved. Binding: each "
+        "history is performed on a real MSI with lib/comdoc and InsertMSISignature; after every step an independent CFB reader "
+        "projects the file and Cfb_Trace evaluates all invariants on every projected state; the MSI digest computed from the tar "
+        "stream must equal the digest of the container.",
+   note="One fixture (512-byte sectors). Not exercised: 4096-byte sectors, DIFAT growth, modification of nested storages. Trusted: "
+        "the harness CFB reader (its projection of the pristine fixture satisfies all invariants).",
+   technique="TLA+ allocator model + container invariants; full-state traces projected from real files validated by TLC",
+   engine="cfb"),
 }
 
 NOT_YET = {}
